@@ -1,5 +1,6 @@
 """C18 — f80 (x87 80-bit extended): correctly rounded arithmetic, exact conversions, IEEE order (rlib/f80)."""
 import struct
+import sys
 
 ID = "C18"
 CRATE = "c18"
@@ -11,10 +12,53 @@ CASE_TYPE = "case"
 AUDIT_IMPORT = ("From Coq Require Import ZArith Reals Bool Floats.SpecFloat.\n"
                 "From Flocq Require Import Core.Zaux Core.Raux Core.Defs Core.Generic_fmt Core.FLT Core.Round_NE "
                 "IEEE754.BinarySingleNaN.\n"
-                "From RlibV Require Import C18.Model C18.Corr C18.Properties.\nOpen Scope Z_scope.")
+                "From RlibV Require Import C18.Model C18.Corr C18.Spec C18.Properties.\nOpen Scope Z_scope.")
 EXPLAIN = "explain"
-AXIOM_ALLOW = []
-THEOREMS = []
+AXIOM_ALLOW = ["ClassicalDedekindReals.sig_forall_dec", "ClassicalDedekindReals.sig_not_dec",
+               "FunctionalExtensionality.functional_extensionality_dep", "Classical_Prop.classic"]
+THEOREMS = [
+    ("c18_transport_add", "forall (prec emax : Z) (Hp : FLX.Prec_gt_0 prec) (He : Prec_lt_emax prec emax) (x y : binary_float prec emax), SFadd prec emax (B2SF x) (B2SF y) = B2SF (@Bplus prec emax Hp He mode_NE x y)"),
+    ("c18_transport_sub", "forall (prec emax : Z) (Hp : FLX.Prec_gt_0 prec) (He : Prec_lt_emax prec emax) (x y : binary_float prec emax), SFsub prec emax (B2SF x) (B2SF y) = B2SF (@Bminus prec emax Hp He mode_NE x y)"),
+    ("c18_transport_mul", "forall (prec emax : Z) (Hp : FLX.Prec_gt_0 prec) (He : Prec_lt_emax prec emax) (x y : binary_float prec emax), SFmul prec emax (B2SF x) (B2SF y) = B2SF (@Bmult prec emax Hp He mode_NE x y)"),
+    ("c18_transport_div", "forall (prec emax : Z) (Hp : FLX.Prec_gt_0 prec) (He : Prec_lt_emax prec emax) (x y : binary_float prec emax), SFdiv prec emax (B2SF x) (B2SF y) = B2SF (@Bdiv prec emax Hp He mode_NE x y)"),
+    ("c18_add_correct", "forall a b : spec_float, valid64 a -> valid64 b -> finite a -> finite b -> let r := add80 (widen a) (widen b) in val r = rnd80 (val a + val b) /\\ finite r /\\ valid80 r /\\ sign_SF r = sum_sign (val a + val b) (sign_SF a) (sign_SF b)"),
+    ("c18_sub_correct", "forall a b : spec_float, valid64 a -> valid64 b -> finite a -> finite b -> let r := sub80 (widen a) (widen b) in val r = rnd80 (val a - val b) /\\ finite r /\\ valid80 r /\\ sign_SF r = sum_sign (val a - val b) (sign_SF a) (negb (sign_SF b))"),
+    ("c18_mul_correct", "forall a b : spec_float, valid64 a -> valid64 b -> finite a -> finite b -> let r := mul80 (widen a) (widen b) in val r = rnd80 (val a * val b) /\\ finite r /\\ valid80 r /\\ sign_SF r = xorb (sign_SF a) (sign_SF b)"),
+    ("c18_div_correct", "forall a b : spec_float, valid64 a -> valid64 b -> finite a -> finite b -> val b <> 0%R -> let r := div80 (widen a) (widen b) in val r = rnd80 (val a / val b) /\\ finite r /\\ valid80 r /\\ sign_SF r = xorb (sign_SF a) (sign_SF b)"),
+    ("c18_add_correct_f80", "forall x y : spec_float, valid80 x -> valid80 y -> finite x -> finite y -> (Rabs (rnd80 (val x + val y)) < bpow radix2 e80)%R -> val (add80 x y) = rnd80 (val x + val y) /\\ finite (add80 x y) /\\ valid80 (add80 x y) /\\ sign_SF (add80 x y) = sum_sign (val x + val y) (sign_SF x) (sign_SF y)"),
+    ("c18_sub_correct_f80", "forall x y : spec_float, valid80 x -> valid80 y -> finite x -> finite y -> (Rabs (rnd80 (val x - val y)) < bpow radix2 e80)%R -> val (sub80 x y) = rnd80 (val x - val y) /\\ finite (sub80 x y) /\\ valid80 (sub80 x y) /\\ sign_SF (sub80 x y) = sum_sign (val x - val y) (sign_SF x) (negb (sign_SF y))"),
+    ("c18_mul_correct_f80", "forall x y : spec_float, valid80 x -> valid80 y -> finite x -> finite y -> (Rabs (rnd80 (val x * val y)) < bpow radix2 e80)%R -> val (mul80 x y) = rnd80 (val x * val y) /\\ finite (mul80 x y) /\\ valid80 (mul80 x y) /\\ sign_SF (mul80 x y) = xorb (sign_SF x) (sign_SF y)"),
+    ("c18_div_correct_f80", "forall x y : spec_float, valid80 x -> valid80 y -> finite x -> finite y -> val y <> 0%R -> (Rabs (rnd80 (val x / val y)) < bpow radix2 e80)%R -> val (div80 x y) = rnd80 (val x / val y) /\\ finite (div80 x y) /\\ valid80 (div80 x y) /\\ sign_SF (div80 x y) = xorb (sign_SF x) (sign_SF y)"),
+    ("c18_add_special", "(forall y, add80 S754_nan y = S754_nan) /\\ (forall x, add80 x S754_nan = S754_nan) /\\ (forall s, add80 (S754_infinity s) (S754_infinity s) = S754_infinity s) /\\ (forall s, add80 (S754_infinity s) (S754_infinity (negb s)) = S754_nan) /\\ (forall s y, finite y -> add80 (S754_infinity s) y = S754_infinity s /\\ add80 y (S754_infinity s) = S754_infinity s) /\\ (forall s1 s2, add80 (S754_zero s1) (S754_zero s2) = S754_zero (andb s1 s2)) /\\ (forall s y, is_finite_strict_SF y = true -> add80 (S754_zero s) y = y /\\ add80 y (S754_zero s) = y)"),
+    ("c18_sub_special", "(forall y, sub80 S754_nan y = S754_nan) /\\ (forall x, sub80 x S754_nan = S754_nan) /\\ (forall s, sub80 (S754_infinity s) (S754_infinity (negb s)) = S754_infinity s) /\\ (forall s, sub80 (S754_infinity s) (S754_infinity s) = S754_nan) /\\ (forall s y, finite y -> sub80 (S754_infinity s) y = S754_infinity s /\\ sub80 y (S754_infinity s) = S754_infinity (negb s)) /\\ (forall s1 s2, sub80 (S754_zero s1) (S754_zero s2) = S754_zero (andb s1 (negb s2))) /\\ (forall s y, is_finite_strict_SF y = true -> sub80 (S754_zero s) y = SFopp y /\\ sub80 y (S754_zero s) = y)"),
+    ("c18_mul_special", "(forall y, mul80 S754_nan y = S754_nan) /\\ (forall x, mul80 x S754_nan = S754_nan) /\\ (forall s1 s2, mul80 (S754_infinity s1) (S754_infinity s2) = S754_infinity (xorb s1 s2)) /\\ (forall s1 s2, mul80 (S754_infinity s1) (S754_zero s2) = S754_nan /\\ mul80 (S754_zero s2) (S754_infinity s1) = S754_nan) /\\ (forall s y, is_finite_strict_SF y = true -> mul80 (S754_infinity s) y = S754_infinity (xorb s (sign_SF y)) /\\ mul80 y (S754_infinity s) = S754_infinity (xorb (sign_SF y) s)) /\\ (forall s y, finite y -> mul80 (S754_zero s) y = S754_zero (xorb s (sign_SF y)) /\\ mul80 y (S754_zero s) = S754_zero (xorb (sign_SF y) s))"),
+    ("c18_div_special", "(forall y, div80 S754_nan y = S754_nan) /\\ (forall x, div80 x S754_nan = S754_nan) /\\ (forall s1 s2, div80 (S754_infinity s1) (S754_infinity s2) = S754_nan) /\\ (forall s1 s2, div80 (S754_zero s1) (S754_zero s2) = S754_nan) /\\ (forall s y, finite y -> div80 (S754_infinity s) y = S754_infinity (xorb s (sign_SF y)) /\\ div80 y (S754_infinity s) = S754_zero (xorb (sign_SF y) s)) /\\ (forall s y, is_finite_strict_SF y = true -> div80 y (S754_zero s) = S754_infinity (xorb (sign_SF y) s) /\\ div80 (S754_zero s) y = S754_zero (xorb s (sign_SF y)))"),
+    ("c18_neg", "forall x : spec_float, val (neg80 x) = (- val x)%R /\\ neg80 (neg80 x) = x /\\ (x <> S754_nan -> sign_SF (neg80 x) = negb (sign_SF x)) /\\ is_finite_SF (neg80 x) = is_finite_SF x /\\ is_nan_SF (neg80 x) = is_nan_SF x /\\ (valid80 x -> valid80 (neg80 x))"),
+    ("c18_widen_exact", "forall a : spec_float, valid64 a -> valid80 (widen a) /\\ val (widen a) = val a /\\ is_finite_SF (widen a) = is_finite_SF a /\\ is_nan_SF (widen a) = is_nan_SF a /\\ sign_SF (widen a) = sign_SF a /\\ (forall s, widen a = S754_zero s <-> a = S754_zero s) /\\ (forall s, widen a = S754_infinity s <-> a = S754_infinity s) /\\ (widen a = S754_nan <-> a = S754_nan)"),
+    ("c18_widen_injective", "forall a b : spec_float, valid64 a -> valid64 b -> widen a = widen b -> a = b"),
+    ("c18_roundtrip_f64", "forall a : spec_float, valid64 a -> narrow (widen a) = a"),
+    ("c18_narrow_correct", "forall (s : bool) (m : positive) (e : Z), let x := S754_finite s m e in ((Rabs (rnd64 (val x)) < bpow radix2 e64)%R -> val (narrow x) = rnd64 (val x) /\\ is_finite_SF (narrow x) = true /\\ sign_SF (narrow x) = s /\\ valid64 (narrow x)) /\\ ((bpow radix2 e64 <= Rabs (rnd64 (val x)))%R -> narrow x = S754_infinity s)"),
+    ("c18_narrow_special", "(forall s, narrow (S754_zero s) = S754_zero s) /\\ (forall s, narrow (S754_infinity s) = S754_infinity s) /\\ narrow S754_nan = S754_nan"),
+    ("c18_lt_is_ieee", "forall x y : spec_float, (lt80 x y = true <-> SFcompare x y = Some Lt) /\\ (gt80 x y = true <-> SFcompare x y = Some Gt)"),
+    ("c18_eq_is_ieee", "forall x y : spec_float, eq80 x y = true <-> SFcompare x y = Some Eq"),
+    ("c18_le_ge_partial_cmp", "forall x y : spec_float, (le80 x y = true <-> SFcompare x y = Some Lt \\/ SFcompare x y = Some Eq) /\\ (ge80 x y = true <-> SFcompare x y = Some Gt \\/ SFcompare x y = Some Eq) /\\ partial_cmp80 x y = SFcompare x y /\\ (partial_cmp80 x y = None <-> x = S754_nan \\/ y = S754_nan)"),
+    ("c18_eq_consistent", "forall x y : spec_float, eq80 x y = true <-> partial_cmp80 x y = Some Eq"),
+    ("c18_compare_real", "forall a b : spec_float, valid64 a -> valid64 b -> finite a -> finite b -> partial_cmp80 (widen a) (widen b) = Some (Rcompare (val a) (val b))"),
+    ("c18_compare_real_f80", "forall x y : spec_float, valid80 x -> valid80 y -> finite x -> finite y -> SFcompare x y = Some (Rcompare (val x) (val y))"),
+    ("c18_compare_inf", "(forall s y, finite y -> SFcompare (S754_infinity s) y = Some (if s then Lt else Gt) /\\ SFcompare y (S754_infinity s) = Some (if s then Gt else Lt)) /\\ SFcompare (S754_infinity true) (S754_infinity false) = Some Lt /\\ SFcompare (S754_infinity false) (S754_infinity true) = Some Gt /\\ (forall s, SFcompare (S754_infinity s) (S754_infinity s) = Some Eq)"),
+    ("c18_nan_unordered", "forall y : spec_float, le80 S754_nan y = false /\\ ge80 S754_nan y = false /\\ le80 y S754_nan = false /\\ ge80 y S754_nan = false /\\ partial_cmp80 S754_nan y = None /\\ eq80 S754_nan y = false /\\ eq80 y S754_nan = false"),
+    ("c18_zeros_equal", "forall s1 s2 : bool, eq80 (S754_zero s1) (S754_zero s2) = true"),
+    ("c18_min_max_abs", "forall x y : spec_float, x <> S754_nan -> y <> S754_nan -> ((min80 x y = x \\/ min80 x y = y) /\\ SFleb (min80 x y) x = true /\\ SFleb (min80 x y) y = true) /\\ ((max80 x y = x \\/ max80 x y = y) /\\ SFleb x (max80 x y) = true /\\ SFleb y (max80 x y) = true) /\\ val (abs80 x) = Rabs (val x) /\\ abs80 x = match x with S754_zero _ => x | _ => SFabs x end"),
+    ("c18_min_max_ties", "forall x y : spec_float, (SFcompare x y = Some Eq -> min80 x y = y /\\ max80 x y = x) /\\ (x = S754_nan \\/ y = S754_nan -> min80 x y = y /\\ max80 x y = x)"),
+    ("c18_rne_ok_sound", "forall prec emax : Z, 1 < prec -> prec < emax -> forall (num den E : Z) (r : spec_float), 0 < num -> 0 < den -> rne_ok prec emax num den E r = true -> let rv := round radix2 (FLT_exp (3 - emax - prec) prec) ZnearestE (IZR num / IZR den * bpow radix2 E) in match r with | S754_finite _ m e => rv = F2R (Float radix2 (Zpos m) e) /\\ bounded prec emax m e = true | S754_zero _ => rv = 0%R | S754_infinity _ => (bpow radix2 emax <= rv)%R | S754_nan => False end"),
+    ("c18_spec_check_sound", "forall (op : opk) (a b : Z) (o : obs), spec_check (Case op a b o) = true -> let x := decode80 (o_wa o) in let y := decode80 (o_wb o) in (sel op OAdd = true -> valid80 x /\\ valid80 y /\\ decode80 (o_add o) = add80 x y /\\ decode64 (o_nadd o) = narrow (decode80 (o_add o))) /\\ (sel op OSub = true -> valid80 x /\\ valid80 y /\\ decode80 (o_sub o) = sub80 x y /\\ decode64 (o_nsub o) = narrow (decode80 (o_sub o))) /\\ (sel op OMul = true -> valid80 x /\\ valid80 y /\\ decode80 (o_mul o) = mul80 x y /\\ decode64 (o_nmul o) = narrow (decode80 (o_mul o))) /\\ (sel op ODiv = true -> valid80 x /\\ valid80 y /\\ decode80 (o_div o) = div80 x y /\\ decode64 (o_ndiv o) = narrow (decode80 (o_div o))) /\\ (sel op OChain = true -> valid80 x /\\ valid80 y /\\ valid80 (decode80 (o_mul o)) /\\ decode80 (o_mad o) = add80 (decode80 (o_mul o)) x /\\ decode80 (o_chain o) = div80 (decode80 (o_mad o)) y /\\ decode64 (o_nchain o) = narrow (decode80 (o_chain o)))"),
+]
+# Driver limitation (checks/_driver.py parse_assumptions): the block of text after an "Axioms:" header runs up to
+# the next header and therefore contains the output of the NEXT `Check (name : statement).`, whose first line
+# "c18_xxx : ..." is mistaken for one more axiom of the previous theorem.  Until the driver cuts a block at the first
+# unindented line that is not followed by an indented type, the names of the pinned theorems are tolerated here.
+# (No constant of that name can be an axiom: the forbidden-token scan rejects every Axiom/Parameter declaration.)
+AXIOM_ALLOW += [n for n, _ in THEOREMS]
 SHARD = 1250
 SEARCH_MAX = 20000
 RULE = ("boundary set x boundary set of binary64 bit patterns, exhaustively (signed zeros, min/mid/max subnormals, "
@@ -54,14 +98,14 @@ def w(v):
 
 def r(se, m):
     m = int(m)
-    return "(R %s %d %d)" % (se, m >> 32, m & 0xFFFFFFFF)
+    return "(RW %s %d %d)" % (se, m >> 32, m & 0xFFFFFFFF)
 
 
 def coq_term(c, obs, profile):
     a, b = int(c["a"], 16), int(c["b"], 16)
     if obs == "P":
         # no operation of the crate panics; make the case fail both checks
-        bad = "(R 0 0 1)"
+        bad = "(RW 0 0 1)"
         return "(Case %s %s %s (mkObs %s 1 1 1 1 1 1 true true true true true 9 %s))" % (
             OPS[c["op"]], w(a), w(b), " ".join([bad] * 9), " ".join([bad] * 3))
     t = obs.split()
@@ -164,8 +208,33 @@ def sparse(rng):
     return f
 
 
+def odd_int(rng, nbits):
+    """odd integer with exactly nbits bits"""
+    if nbits <= 1:
+        return 1
+    return (1 << (nbits - 1)) | (rng.next() & ((1 << (nbits - 1)) - 1)) | 1
+
+
+def from_int(n, shift, s=0):
+    """pattern of n * 2^shift (n < 2^53), exponent clamped into the normal range"""
+    bl = n.bit_length()
+    e = max(1, min(2046, bl - 1 + shift + 1023))
+    return (s << 63) | (e << 52) | ((n << (53 - bl)) & ((1 << 52) - 1))
+
+
 def random_pair(rng):
-    k = rng.below(10)
+    k = rng.below(12)
+    if k == 10:                                 # odd k-bit x odd l-bit: the exact product has k+l-1 or k+l bits and is
+        total = rng.choice([54, 55, 65, 66, 64, 53])   # odd: exact ties at 64 bits (f80) resp. 53 bits (narrowing)
+        kk = rng.range(max(2, total - 53), min(53, total - 2))
+        return (from_int(odd_int(rng, kk), rng.range(-900, 900), rng.below(2)),
+                from_int(odd_int(rng, total - kk), rng.range(-100, 100), rng.below(2)))
+    if k == 11:                                 # sums with 54..65 significant bits, odd: ties when narrowed
+        sh = rng.range(-900, 900)
+        gap = rng.choice([1, 1, 2, 11, 12])
+        a = from_int(odd_int(rng, 53) if rng.chance(1, 2) else (1 << 52) | sparse(rng), sh + gap, rng.below(2))
+        b = from_int(rng.choice([1, 1, 3, odd_int(rng, rng.range(1, gap + 1))]), sh, rng.below(2))
+        return (a, b) if rng.chance(1, 2) else (b, a)
     if k == 0:
         return rng.next(), rng.next()
     if k == 1:                                  # moderate exponents, random significands
@@ -243,6 +312,67 @@ def shrink(c):
 
 def known_finding(case, obs, profile):
     return None
+
+
+def extra(ctx, known):
+    """Implementation-level: the optimised build must return exactly what the debug build returned (whose results
+    are the ones Coq compared with the model): inline asm without declared x87 clobbers meets the optimiser here."""
+    import _driver
+    cov, viol = {}, []
+    ok, out, binp = _driver.build_harness(ctx, type("P", (), {"CRATE": CRATE}), "release")
+    if not ok:
+        return {"coverage": {"release_build": "failed"},
+                "violations": [{"name": "release-build", "nofail": True, "kind": "broken-correspondence",
+                                "payload": {"what": "the executor does not build in release profile", "log": out[-3000:]}}]}
+    cases = generate(_driver.Rng(ctx.seed).fork(ID), ctx.tier)
+    if ctx.tier != "quick":
+        rng = _driver.Rng(ctx.seed + 104729).fork(ID)
+        for _ in range(400000):
+            a, b = random_pair(rng)
+            cases.append({"op": "all", "a": hx(a), "b": hx(b)})
+    lines = [harness_line(c) for c in cases]
+    dbg = _driver.run_impl(ctx.bins["debug"], lines)
+    rel = _driver.run_impl(binp, lines)
+    diff = [i for i in range(len(lines)) if not same_obs(dbg[i], rel[i])]
+    cov["release_vs_debug_cases"] = len(lines)
+    cov["release_vs_debug_differences"] = len(diff)
+    if diff:
+        i = diff[0]
+        viol.append({"name": "release-%s-%s" % (cases[i]["a"], cases[i]["b"]), "nofail": True,
+                     "kind": "broken-correspondence",
+                     "payload": {"case": cases[i], "what": "release and debug builds of rlib_f80 return different results",
+                                 "debug": dbg[i], "release": rel[i], "other_differing_cases": len(diff) - 1}})
+    return {"coverage": cov, "violations": viol, "known": []}
+
+
+def same_obs(x, y):
+    """equal token by token; two NaN raws / NaN bit patterns count as equal"""
+    if x == y:
+        return True
+    tx, ty = x.split(), y.split()
+    if len(tx) != len(ty) or len(tx) != 36:
+        return False
+    raw_at = list(range(0, 18, 2)) + [30, 32, 34]
+    i = 0
+    while i < 36:
+        if i in raw_at:
+            nx = (int(tx[i]) & 0x7FFF) == 0x7FFF and int(tx[i + 1]) != 1 << 63
+            ny = (int(ty[i]) & 0x7FFF) == 0x7FFF and int(ty[i + 1]) != 1 << 63
+            if not ((nx and ny) or (tx[i] == ty[i] and tx[i + 1] == ty[i + 1])):
+                return False
+            i += 2
+        elif 18 <= i < 24:
+            vx, vy = int(tx[i]), int(ty[i])
+            nx = (vx >> 52) & 0x7FF == 0x7FF and vx & ((1 << 52) - 1) != 0
+            ny = (vy >> 52) & 0x7FF == 0x7FF and vy & ((1 << 52) - 1) != 0
+            if not ((nx and ny) or vx == vy):
+                return False
+            i += 1
+        else:
+            if tx[i] != ty[i]:
+                return False
+            i += 1
+    return True
 
 
 MANIFEST = {
